@@ -385,7 +385,86 @@ func copyMap(m map[string]any) map[string]any {
 }
 
 func replay(repro map[string]any) (string, bool) {
-	return "replay of C11 schedules: re-run the check; the schedule is recorded in the replay file", true
+	log.SetOutput(io.Discard)
+	g := value.New()
+	src, _ := repro["src"].(string)
+	T := 2
+	if t, ok := repro["threads"].(float64); ok {
+		T = int(t)
+	}
+	var args []int
+	if l, ok := repro["args"].([]any); ok {
+		for _, a := range l {
+			args = append(args, int(a.(float64)))
+		}
+	}
+	for len(args) < T {
+		args = append(args, 0)
+	}
+	var choices []int
+	if l, ok := repro["schedule"].([]any); ok {
+		for _, c := range l {
+			choices = append(choices, int(c.(float64)))
+		}
+	}
+	iso := make([]string, T)
+	for i := range iso {
+		vsched.RunDefault(func() string {
+			f, _, err := g.Generate(src, "a")
+			if err != nil {
+				iso[i] = "GENERR " + err.Error()
+				return ""
+			}
+			iso[i] = vrun.Eval(f, []value.Value{value.Int(args[i])}).String()
+			if strings.HasPrefix(iso[i], "error") {
+				iso[i] = "error"
+			}
+			return ""
+		})
+	}
+	want := strings.Join(iso, " | ")
+	body := func() string {
+		vsched.YieldOnAccess = false
+		f, _, err := g.Generate(src, "a")
+		if err != nil {
+			return "GENERR"
+		}
+		res := make([]string, T)
+		done := vsched.MakeChan[int](T)
+		vsched.YieldOnAccess = true
+		eval := func(i int) {
+			o := vrun.Eval(f, []value.Value{value.Int(args[i])}).String()
+			if strings.HasPrefix(o, "error") {
+				o = "error"
+			}
+			res[i] = o
+			done.Send(i)
+		}
+		for i := 1; i < T; i++ {
+			i := i
+			vsched.Go(func() { eval(i) })
+		}
+		eval(0)
+		for i := 0; i < T; i++ {
+			done.Recv()
+		}
+		vsched.YieldOnAccess = false
+		return strings.Join(res, " | ")
+	}
+	if len(choices) == 0 {
+		// no schedule recorded: explore again
+		st := vsched.Explore(vsched.Config{PreemptBound: 3, NoPrune: true, MaxExecs: 200000}, body)
+		bad := st.RaceExecs > 0
+		for o := range st.Outcomes {
+			if o != want {
+				bad = true
+			}
+		}
+		return fmt.Sprintf("isolated: %s; all schedules with <= 3 preemptions: outcomes %v, executions with a data race %d", want, st.Outcomes, st.RaceExecs), bad
+	}
+	res := vsched.Replay(choices, body)
+	return fmt.Sprintf("isolated evaluations: %s\nunder the recorded schedule: %s\nraces: %v\ncrashes: %v\nschedule (%d transitions):\n  %s",
+		want, res.Obs, res.Races, res.Crashes, len(res.Trace), strings.Join(res.Trace, "\n  ")), res.Obs != want || len(res.Races) > 0 || res.Deadlock || len(res.Crashes) > 0
 }
 
 var _ = funcGen.NewEmptyStack[value.Value]
